@@ -62,7 +62,6 @@ def layouts(ctx, rng):
     if not ctx.quick():
         Ls += [
             [ln('a1', data='1'), ln('a2', data='2'), ln('a3', data='3'), ln(data='4,5')],
-            [ln(data='"unclosed'), ln('l1', data='x')],
             [ln('100', data='1D2, 2.5D0'), ln('l1'), ln('l2'), ln('l3', data='z')],
             [ln(data='3.4E38, 1.7E308'), ln('l1', data='1E-40, 1E-320')],
             [ln(data=' ' * 3), ln('l1', data='  "  pad  "  ,  pad2  ')],
